@@ -336,7 +336,7 @@ class HistoryProfile(StoreProfile):
             for c in model.configs:
                 st.create(c, s)
         A, G = build_alphabet(model, st.listing(cfg), small=True)
-        base = [a for i, a in enumerate(A) if i % (2 if tier == "thorough" else 6) == 0]
+        base = [a for i, a in enumerate(A) if i % (3 if tier == "thorough" else 6) == 0]
         # one run per first call: [universe, (restart, a, b) for every b]
         for a in base:
             steps = list(uni)
@@ -351,8 +351,7 @@ class HistoryProfile(StoreProfile):
         from .. import orchestrator as O
         todo = [r for r in results if r.get("obslog") is not None and not r.get("violations")
                 and str(r.get("hash_seed")) != "0" and not r.get("harness_error")]
-        if tier == "quick":
-            todo = todo[:60]
+        todo = todo[:60] if tier == "quick" else todo[:600]
         replays, by_seed = {}, {}
         for r in todo:
             replays[r["seed"]] = {"params": r["params"], "steps": r["steps"], "force_hash": 0}
